@@ -138,6 +138,9 @@ pub fn check_xml(doc: &str) -> Result<Vec<String>, (&'static str, String)> {
                 }
             } else if !legal_text_char(c) {
                 return Err(("illegal-character", format!("U+{:04X} may not appear literally in XML {}", c as u32, if version11 { "1.1" } else { "1.0" })));
+            } else if c == '>' && i >= 2 && chars[i - 1] == ']' && chars[i - 2] == ']' {
+                // CharData ::= [^<&]* - ([^<&]* ']]>' [^<&]*)
+                return Err(("cdata-end-in-text", "the sequence ]]> appears literally in character data".to_string()));
             }
             // end-of-line handling of a conforming parser: literal CR LF, CR NEL, CR, NEL, LS become LF
             if c == '\r' {
@@ -276,7 +279,53 @@ fn start_server(id: &str, rng: &mut Rng, stray_unreal2: bool, ip: IpAddr, extrem
     serve(ip, server).ok().map(Live::Model)
 }
 
+/// characters at the edges of the XML name classes (allowed neighbours and excluded code points), and ASCII punctuation
+const NAME_EDGE: &[char] = &[
+    '\u{37e}', '\u{37d}', '\u{37f}', '\u{d7}', '\u{d6}', '\u{d8}', '\u{f7}', '\u{f6}', '\u{f8}', '\u{b7}', '\u{2ff}', '\u{300}', '\u{36f}', '\u{370}', '\u{1fff}', '\u{2000}', '\u{200b}', '\u{200c}', '\u{200d}', '\u{200e}',
+    '\u{203e}', '\u{203f}', '\u{2040}', '\u{2041}', '\u{206f}', '\u{2070}', '\u{218f}', '\u{2190}', '\u{2bff}', '\u{2c00}', '\u{2fef}', '\u{2ff0}', '\u{3000}', '\u{3001}', '\u{d7ff}', '\u{e000}', '\u{f8ff}', '\u{f900}', '\u{fdcf}', '\u{fdd0}',
+    '\u{fdef}', '\u{fdf0}', '\u{fffd}', '\u{10000}', '\u{effff}', '\u{f0000}', ' ', '!', '"', '#', '$', '%', '&', '\'', '(', ')', '*', '+', ',', '-', '.', '/', '0', ':', ';', '<', '=', '>', '?', '@', '[', ']', '^', '_', '`', '{', '|', '}', '~', '\u{7f}', '\u{85}', '\u{a0}',
+];
+
 impl C19 {
+    /// one server variable whose name has the k-th edge character in the middle, one with it in front: the XML document
+    /// must stay well-formed and carry both values
+    fn name_edge_case(&self, cx: &mut Cx, k: usize) {
+        use crate::models::gamespy::OneShotUdp;
+        use crate::models::quake::{QState, Ver};
+        let c = NAME_EDGE[k % NAME_EDGE.len()];
+        let mut st = QState::gen(&mut cx.rng, Ver::Two, 1, 0);
+        st.extras = vec![(format!("mid{c}dle"), "value-one".to_string()), (format!("{c}front"), "value-two".to_string()), (format!("back{c}"), "value-three".to_string())];
+        st.alternates.clear();
+        let d = st.encode(&mut cx.rng);
+        let lo = IpAddr::V4(Ipv4Addr::LOCALHOST);
+        let Ok(live) = serve(lo, Box::new(OneShotUdp::new(&st.request(), vec![d]))) else { return cx.inconclusive("cannot start loopback server") };
+        let mode = if k % 2 == 0 { "protocol-specific" } else { "generic" };
+        let mut cmd = crate::core::framework::wrapped_command(&cli());
+        cmd.args(["query", "-g", "quake2", "-i", "127.0.0.1", "-p", &live.addr.port().to_string(), "-f", "xml", "-o", mode, "--read-timeout", "2"]);
+        let out = proc::run(cmd, Duration::from_secs(30));
+        drop(live);
+        cx.eval();
+        let Ok(out) = out else { return cx.inconclusive("cannot run gamedig_cli") };
+        let stdout = String::from_utf8_lossy(&out.stdout).to_string();
+        let detail = |what: String| json!({"what": what, "character": format!("U+{:04X}", c as u32), "mode": mode, "exit": out.code, "stdout": stdout.chars().take(1200).collect::<String>(), "stderr": String::from_utf8_lossy(&out.stderr).chars().take(300).collect::<String>()});
+        if out.code != Some(0) {
+            cx.violation("C19 valid-server nonzero-exit name-edge", || detail("exit".into()));
+            return;
+        }
+        match check_xml(&stdout) {
+            Err((class, why)) => cx.violation(format!("C19 malformed format=xml class={class} mode={mode} family=Quake"), || detail(why.clone())),
+            Ok(leaves) => {
+                let missing: Vec<&str> = if mode == "generic" { vec![] } else { ["value-one", "value-two", "value-three"].into_iter().filter(|v| !leaves.iter().any(|l| l == v)).collect() };
+                if missing.is_empty() {
+                    cx.count("name-edge-ok");
+                    cx.nontrivial(hash64(format!("name-edge {k} {mode}").as_bytes()));
+                } else {
+                    cx.violation(format!("C19 unfaithful format=xml mode={mode} family=Quake"), || detail(format!("values missing: {missing:?}")));
+                }
+            }
+        }
+    }
+
     fn valid_case(&self, cx: &mut Cx) {
         let id = GAMES[(cx.idx % GAMES.len() as u64) as usize];
         let fmt = FORMATS[((cx.idx / GAMES.len() as u64) % 6) as usize];
@@ -534,15 +583,19 @@ impl Check for C19 {
             "cases where the library itself rejects the model server's reply are observe-only here (C02-C07 own them)".into(),
         ]
     }
-    fn total_cases(&self, tier: Tier) -> u64 { tier.pick(20 * 6 * 2 * 2 + 60, 20 * 6 * 2 * 60 + 1_500) }
+    fn total_cases(&self, tier: Tier) -> u64 { tier.pick(20 * 6 * 2 * 2 + 60, 20 * 6 * 2 * 60 + 1_500) + 2 * NAME_EDGE.len() as u64 }
     fn max_workers(&self, _tier: Tier) -> usize { 16 }
     fn run_case(&mut self, cx: &mut Cx) {
         if !cli().exists() {
             return cx.inconclusive("gamedig_cli binary not built");
         }
         let valid = GAMES.len() as u64 * 12 * cx.tier.pick(2, 60);
+        let total = self.total_cases(cx.tier);
+        let edge = 2 * NAME_EDGE.len() as u64;
         if cx.idx < valid {
             self.valid_case(cx)
+        } else if cx.idx >= total - edge {
+            self.name_edge_case(cx, (cx.idx - (total - edge)) as usize)
         } else {
             self.invalid_case(cx)
         }
@@ -556,6 +609,6 @@ impl Check for C19 {
         }
         Ok(())
     }
-    fn extra_coverage(&self, _tier: Tier, m: &Stats) -> Value { json!({"ok_per_format": m.counters.iter().filter(|(k, _)| k.starts_with("ok|")).collect::<std::collections::BTreeMap<_, _>>(), "cases_passed(game|format|mode)": m.shapes.len()}) }
+    fn extra_coverage(&self, _tier: Tier, m: &Stats) -> Value { json!({"name_edge_characters_ok": m.counters.get("name-edge-ok"), "ok_per_format": m.counters.iter().filter(|(k, _)| k.starts_with("ok|")).collect::<std::collections::BTreeMap<_, _>>(), "cases_passed(game|format|mode)": m.shapes.len()}) }
     fn budget_s(&self, tier: Tier) -> u64 { tier.pick(200, 2400) }
 }
